@@ -10,7 +10,7 @@
         match encode_multibyte_integer(v, &mut buf) {
             Err(e) => {
                 assert!(v > u64::MAX / 2);
-                assert!(e.kind() == std::io::ErrorKind::InvalidData);
+                assert!(vk::kind_of(&e) == vk::Kind::InvalidData);
             }
             Ok(n) => {
                 assert!(v <= u64::MAX / 2);
@@ -72,7 +72,7 @@
                 assert!(src.pos == c);
             }
             (Err(e), Err(_)) => {
-                assert!(e.kind() == std::io::ErrorKind::InvalidData);
+                assert!(vk::kind_of(&e) == vk::Kind::InvalidData);
             }
             _ => assert!(false),
         }
@@ -148,7 +148,7 @@
             }
             Err(e) => {
                 assert!(!(b == 0 || b == 1 || b == 4 || b == 10));
-                assert!(e.kind() == std::io::ErrorKind::InvalidData);
+                assert!(vk::kind_of(&e) == vk::Kind::InvalidData);
             }
         }
         let id: u64 = vk::any();
